@@ -348,6 +348,9 @@ func ParentMain(id, tier string) int {
 		}
 	}
 	maxRep := 40
+	if n, err := strconv.Atoi(os.Getenv("VERIF_MAXREP")); err == nil && n > 0 {
+		maxRep = n
+	}
 	for i, s := range unlisted {
 		f := merged.Fails[s]
 		if i >= maxRep {
